@@ -340,6 +340,37 @@ func runC05(r *Run) error {
 			}
 			_ = repC.Orbit.Close()
 		}
+		// a second handle of the database on the same instance is opened, loaded and closed: it
+		// shares the instance's cache of the database, so closing it may close the cache under
+		// the first handle.  Writes on the first handle afterwards may be refused - but one that
+		// IS acknowledged has to be on disk like any other
+		if r.Rng.Intn(3) == 0 {
+			if h2, err := repA.Orbit.Open(ctx, addr, &orbitdb.CreateDBOptions{}); err == nil {
+				_ = h2.Load(ctx, -1)
+				s.Settle()
+				_ = h2.Close()
+				for k := 0; k < 2; k++ {
+					known := map[string]bool{}
+					for _, e := range stA.OpLog().Values().Slice() {
+						known[e.GetHash().String()] = true
+					}
+					werr := writeOp(r, s, stA, 900+k)
+					if werr != nil {
+						r.Count("write-after-second-handle-closed:refused")
+						continue
+					}
+					r.Count("write-after-second-handle-closed:acknowledged")
+					for _, e := range stA.OpLog().Values().Slice() {
+						if !known[e.GetHash().String()] {
+							final = append(final, e.GetHash().String())
+							u.Note([]ipfslog.Entry{e})
+						}
+					}
+				}
+			} else {
+				r.Count("second-handle-open-refused")
+			}
+		}
 		// clean close / reopen on the real directory: identity kept, everything there
 		idBefore := repA.Orbit.Identity().ID
 		_ = repA.Orbit.Close()
